@@ -127,7 +127,7 @@ Proof.
   - repeat constructor; vm_compute; try reflexivity; try (intros; discriminate); try congruence; lia.
 Qed.
 
-(* the guards of the generator (2c39fad): a first line that starts with `> `, a line that starts with `$ ` and an escaped rendering
+(* the guards of the generator (9eeab85): a first line that starts with `> `, a line that starts with `$ ` and an escaped rendering
    that ends in ` (no-eol)` are written with one character as an escape sequence (Generate.guarded_line / written_line).  Where no
    guard applies -- the premises of the read-back theorems above, which used to name listed known findings -- the documents the
    implementation writes are the documents of those theorems. *)
